@@ -15,6 +15,15 @@ stream() {
     grep "^INCONCLUSIVE\|^VIOLATION\|^UNCONFIRMED\|^TV-MISMATCH" "$GOSYM_OUT/$p.log" | head -5
   done
 }
+if [ $# -gt 0 ]; then
+  # explicit streams: one argument per stream, properties separated by commas (e.g. C17 C15,C02 C01,C09)
+  for spec in "$@"; do
+    stream $(echo "$spec" | tr ',' ' ') &
+  done
+  wait
+  echo THOROUGH-DONE
+  exit 0
+fi
 # three streams; the cheap checks first in the third one so that a time limit cuts only the largest
 stream C17 C01 &
 stream C15 C16 &
